@@ -180,6 +180,58 @@ type runConfig struct {
 	PutConcurrency int64
 	FaultAt        int
 	Kind           outkit.FaultKind
+	// MutateAt > 0: when the counted storage call at that position starts
+	// (the worker is blocked in it), every regular file below the build
+	// root is changed the way Mutation says ("overwrite": same length,
+	// other bytes; "truncate": cut in half; "append": bytes added), as a
+	// process left behind by the action would. Files whose digest has
+	// been computed and whose upload is still pending then no longer
+	// match that digest.
+	MutateAt int
+	Mutation string
+}
+
+// mutateFiles changes every non-empty regular file below root and returns
+// how many it changed.
+func mutateFiles(root, how string) int {
+	n := 0
+	filepath.Walk(root, func(p string, fi os.FileInfo, err error) error {
+		if err != nil || !fi.Mode().IsRegular() || fi.Size() == 0 {
+			return nil
+		}
+		os.Chmod(p, 0o644)
+		switch how {
+		case "overwrite":
+			data, err := os.ReadFile(p)
+			if err != nil {
+				return nil
+			}
+			for i := range data {
+				data[i] ^= 0x20
+			}
+			f, err := os.OpenFile(p, os.O_WRONLY, 0)
+			if err != nil {
+				return nil
+			}
+			f.WriteAt(data, 0)
+			f.Close()
+		case "truncate":
+			if os.Truncate(p, fi.Size()/2) != nil {
+				return nil
+			}
+		case "append":
+			f, err := os.OpenFile(p, os.O_WRONLY|os.O_APPEND, 0)
+			if err != nil {
+				return nil
+			}
+			f.WriteString("more output written after the command was reaped")
+			f.Close()
+		}
+		os.Chmod(p, fi.Mode().Perm())
+		n++
+		return nil
+	})
+	return n
 }
 
 // observation is what one run left behind.
@@ -199,6 +251,9 @@ type observation struct {
 	Skipped     bool
 	DupAcked    bool
 	StickyFlush bool
+	Mutated     int  // files changed by the mutation
+	PutsAfter   int  // CAS uploads that started after the mutation
+	FailedAfter bool // one of them failed
 	Problems    []problem
 }
 
@@ -278,6 +333,13 @@ func (h *harness) runOnce(spec *actionSpec, cfg runConfig) *observation {
 	cas := outkit.NewStore("cas", plan, true)
 	ac := outkit.NewStore("ac", plan, false)
 	ac.IgnoreCtx = true // a backend need not look at the context
+	if cfg.MutateAt > 0 {
+		cas.OnCall = func(op string, seq int) {
+			if seq == cfg.MutateAt {
+				obs.Mutated = mutateFiles(buildRoot, cfg.Mutation)
+			}
+		}
+	}
 
 	// Request.
 	command := &remoteexecution.Command{
@@ -399,6 +461,16 @@ func (h *harness) runOnce(spec *actionSpec, cfg runConfig) *observation {
 	obs.ACStored = ac.Len() > 0
 	obs.Skipped = cas.SkippedAny()
 
+	if cfg.MutateAt > 0 {
+		for _, c := range obs.Calls {
+			if c.Seq > cfg.MutateAt && c.Store == "cas" && c.Op == "Put" && c.Phase != "after-flush" {
+				obs.PutsAfter++
+				if c.Err != "" {
+					obs.FailedAfter = true
+				}
+			}
+		}
+	}
 	storageErr, uploadErr := false, false
 	for _, c := range obs.Calls {
 		if c.Seq > 0 && c.Err != "" {
@@ -545,6 +617,7 @@ func (h *harness) judge(spec *actionSpec, cfg runConfig, obs *observation) {
 		r.Violation("C09 "+p.Sig, p.Detail, map[string]any{
 			"seed": r.Seed(), "action": spec.describe(), "batch_size": cfg.BatchSize,
 			"put_concurrency": cfg.PutConcurrency, "fault_at": cfg.FaultAt, "fault_kind": cfg.Kind.String(),
+			"mutate_at": cfg.MutateAt, "mutation": cfg.Mutation, "files_mutated": obs.Mutated,
 			"calls": obs.Calls, "response_status": obs.StatusCode.String() + ": " + obs.StatusMsg,
 			"response_exit_code": obs.ExitCode, "ac_stored": obs.ACStored, "flush_error": obs.FlushErr,
 			"observed": p.Detail,
@@ -564,6 +637,18 @@ func (h *harness) judge(spec *actionSpec, cfg runConfig, obs *observation) {
 	}
 	if obs.StickyFlush {
 		r.Situation("sticky-error-consumed-by-flush")
+	}
+	if obs.Mutated > 0 && obs.PutsAfter > 0 {
+		// Files changed while uploads of them were pending.
+		switch {
+		case cfg.Mutation == "append":
+			r.Situation("output-files-appended-to-before-pending-upload")
+		case obs.FailedAfter:
+			r.Situation("output-files-" + cfg.Mutation + "-before-pending-upload:upload-refused")
+		}
+		if obs.ACStored {
+			r.Situation("ac-entry-written-after-files-changed-under-the-upload")
+		}
 	}
 	if obs.Triggered {
 		hit := obs.Hit
@@ -601,7 +686,7 @@ func (h *harness) judge(spec *actionSpec, cfg runConfig, obs *observation) {
 			r.Situation("fault-in-cacheable-successful-action")
 		}
 	}
-	r.Hash(obs.hash(), obs.Triggered)
+	r.Hash(ev.HashOf(obs.hash(), cfg.Mutation), obs.Triggered || (obs.Mutated > 0 && obs.PutsAfter > 0))
 }
 
 // replay re-runs exactly the case recorded in a witness file.
@@ -618,6 +703,8 @@ func (h *harness) replay(file string) {
 			PutConcurrency int64  `json:"put_concurrency"`
 			FaultAt        int    `json:"fault_at"`
 			FaultKind      string `json:"fault_kind"`
+			MutateAt       int    `json:"mutate_at"`
+			Mutation       string `json:"mutation"`
 			Action         *struct {
 				Index int `json:"index"`
 			} `json:"action"`
@@ -643,7 +730,7 @@ func (h *harness) replay(file string) {
 		}
 	}
 	spec := genAction(h.r.Rand(9, uint64(w.Action.Index)), w.Action.Index)
-	cfg := runConfig{BatchSize: w.BatchSize, PutConcurrency: w.PutConcurrency, FaultAt: w.FaultAt, Kind: kind}
+	cfg := runConfig{BatchSize: w.BatchSize, PutConcurrency: w.PutConcurrency, FaultAt: w.FaultAt, Kind: kind, MutateAt: w.MutateAt, Mutation: w.Mutation}
 	h.r.Case("replay action %d batch %d fault %s at %d", w.Action.Index, cfg.BatchSize, kind, cfg.FaultAt)
 	h.judge(spec, cfg, h.runOnce(spec, cfg))
 }
@@ -653,8 +740,9 @@ const workers = 4
 func TestCheck(t *testing.T) {
 	r := ev.Start("C09")
 	defer r.Finish()
-	r.SetRule("pipeline: generated actions (0-4 declared outputs: files with duplicate contents, nested directories, symlinks, missing; stdout/stderr; exit codes; runner errors; do_not_cache; three output directory formats; preloaded CAS blobs) x batch size {1,2,3,100}: one clean run counts the storage calls N (CAS FindMissing/Put, AC Put), then one run per position k<=N and fault kind (error before reading, error after reading [Put only], outage from k on, context cancelled right before call k, context cancelled right after call k completed successfully), put concurrency 1, plus random positions with put concurrency 3. batching sub-harness: random Put/flush sequences with reader-backed buffers. A case is non-trivial when the fault position was reached (pipeline) or a fault/duplicate/skip occurred (batch); distinct = distinct (call sequence, fault, status, AC state) hashes")
+	r.SetRule("pipeline: generated actions (0-4 declared outputs: files with duplicate contents, nested directories, symlinks, missing; stdout/stderr; exit codes; runner errors; do_not_cache; three output directory formats; preloaded CAS blobs) x batch size {1,2,3,100}: one clean run counts the storage calls N (CAS FindMissing/Put, AC Put), then one run per position k<=N and fault kind (error before reading, error after reading [Put only], outage from k on, context cancelled right before call k, context cancelled right after call k completed successfully), put concurrency 1, plus random positions with put concurrency 3; plus, per FindMissing position of the clean run, a fault-free run in which every regular file below the build root is overwritten in place / truncated / appended to while that call is in progress (output files changing between the computation of their digest and their batched upload). batching sub-harness: random Put/flush sequences with reader-backed buffers. A case is non-trivial when the fault position was reached (pipeline) or a fault/duplicate/skip occurred (batch); distinct = distinct (call sequence, fault, status, AC state) hashes")
 	r.Assume("fake CAS/AC are sequentially consistent in-memory maps; a storage call that returns nil has stored the blob")
+	r.Assume("a blob counts as stored under a digest only if the bytes the CAS received hash to that digest (the fake CAS re-hashes every Put with the standard library)")
 	r.Assume("the fake AC ignores context cancellation (allowed for a backend), the fake CAS honours it")
 	r.Assume("executor composition is the harness' transcription of cmd/bb_worker/main.go (native build directory branch) with transparent taps; main.go itself is not executed")
 	r.Assume("output digests of a response are the digests in output_files, output_directories, stdout_digest, stderr_digest and server_logs")
@@ -666,6 +754,10 @@ func TestCheck(t *testing.T) {
 		"fault-in-cacheable-successful-action",
 		"cancelled-after-findmissing-before-first-upload", "cancelled-after-successful-upload-with-uploads-left",
 		"cancelled-after-last-upload-of-flush",
+		"output-files-overwrite-before-pending-upload:upload-refused",
+		"output-files-truncate-before-pending-upload:upload-refused",
+		"output-files-appended-to-before-pending-upload",
+		"ac-entry-written-after-files-changed-under-the-upload",
 	} {
 		if r.ReplayFile() == "" {
 			r.Floor(s, 10)
@@ -721,6 +813,28 @@ func TestCheck(t *testing.T) {
 					r.Case("action %d batch %d fault %s at %d/%d", ai, bs, kind, k, base.Counted)
 					obs := h.runOnce(spec, cfg)
 					h.judge(spec, cfg, obs)
+				}
+			}
+			// Output files that change between the computation of their
+			// digest and their (batched) upload: at every FindMissing of
+			// the clean run one kind of change, at the last one (the
+			// final flush) all three.
+			var fms []int
+			for _, c := range base.Calls {
+				if c.Seq > 0 && c.Store == "cas" && c.Op == "FindMissing" {
+					fms = append(fms, c.Seq)
+				}
+			}
+			mutations := []string{"overwrite", "truncate", "append"}
+			for j, k := range fms {
+				hows := []string{mutations[(j+ai)%3]}
+				if j == len(fms)-1 {
+					hows = mutations
+				}
+				for _, how := range hows {
+					cfg := runConfig{BatchSize: bs, PutConcurrency: 1, MutateAt: k, Mutation: how}
+					r.Case("action %d batch %d files %s at call %d/%d", ai, bs, how, k, base.Counted)
+					h.judge(spec, cfg, h.runOnce(spec, cfg))
 				}
 			}
 			// Concurrent uploads: positions drawn by the PRNG.
